@@ -188,6 +188,7 @@ package dns
 //@   ensures ret0 == (h.Rdlength == 0)
 
 //@ func UnpackRRWithHeader [C01 C02]
+//@   opt dyncalls-pure
 //@   assume at "*rr.Header() = h" rr != nil
 //@   ensures in:   err == nil ==> 0 <= off && off <= off1 && off1 <= len(msg) && off1 == off + h.Rdlength
 //@   ensures some: err == nil ==> rr != nil
@@ -217,6 +218,8 @@ package dns
 
 //@ func (*Msg).unpack [C01 C02]
 //@   requires 0 <= off
+//@   exit rcodejoin: called("ExtendedRcode") && 0 <= old(dns.Rcode) && old(dns.Rcode) <= 15 ==> dns.Rcode == old(dns.Rcode) + callres("ExtendedRcode") [C01]
+//@   exit rcodekeep: !called("ExtendedRcode") ==> dns.Rcode == old(dns.Rcode) [C01]
 //@   loop 1 invariant 0 <= i && old(off) <= off
 //@   loop 1 decreases len(msg) - off
 
